@@ -76,6 +76,14 @@ fn run_varint(c: &VC) -> R {
             more.extend_from_slice(&[0xFF, 0x80, 0x00]);
             let (d, n) = must(VarInt::decode(&more), "decode_err", "decode+trailing")?;
             ensure!(d == v && n == enc.len(), "consumed", "decode+trailing", "got ({d},{n}) want ({v},{})", enc.len());
+            // (coverage audit) the streaming reader: same value, the input stays positioned right behind the encoding
+            {
+                use zipora::io::{DataInput, SliceDataInput};
+                let mut inp = SliceDataInput::new(&more);
+                let d = must(VarInt::read_from(&mut inp), "decode_err", "read_from")?;
+                let next = must(inp.read_u8(), "decode_err", "read_from/next_byte")?;
+                ensure!(d == v && next == 0xFF, "consumed", "read_from", "read_from gave {d} (want {v}) and left the input at byte {next:#x} (want the 0xFF right behind the encoding)");
+            }
             // the three writers agree
             let mut w1 = Vec::new();
             let n1 = must(VarInt::write_to(&mut w1, v), "encode_err", "write_to")?;
